@@ -624,9 +624,32 @@ Fixpoint nodupb (l : list N) : bool :=
 
 Definition sum_bits (l : list val) : nat := fold_right (fun i a => vbits i + a) 0 l.
 
+Fixpoint list_nat_eqb (a b : list nat) : bool :=
+  match a, b with
+  | [], [] => true
+  | x :: a', y :: b' => Nat.eqb x y && list_nat_eqb a' b'
+  | _, _ => false
+  end.
+
+Definition sum_nat (l : list nat) : nat := fold_right Nat.add 0 l.
+
 Definition step_ok (p : sprog) (nck : list N) (s : instr) : bool :=
-  (* no native-circuit instruction *)
-  (match iop s with OCirc => false | _ => true end)
+  (* a native-circuit instruction (case Circ): the circuit is well-formed, has
+     one input per operand (Circ.Inputs; an operand narrower or wider than its
+     input is padded with the zero wire / truncated in place), its outputs are
+     exactly as wide as the result values (Circ.Outputs vs Instr.Ret) and are
+     not input wires *)
+  (match iop s with
+   | OCirc =>
+       let cc := nth (icirc s) (sp_circs p) cc0 in
+       let c := cc_c cc in
+       wf c && Nat.eqb (length (cc_ins cc)) (length (iin s))
+       && Nat.eqb (ninputs c) (sum_nat (cc_ins cc))
+       && list_nat_eqb (cc_outs cc) (map vbits (iret s))
+       && Nat.eqb (noutputs c) (sum_nat (cc_outs cc))
+       && (ninputs c + noutputs c <=? nwires c)
+   | _ => true
+   end)
   (* keys of constants and of values are different ([nck]: the keys of the
      arguments and of all results) *)
   && forallb (fun i => if vconst i then negb (mem (vid i) nck)
@@ -675,6 +698,36 @@ Definition consts_tabled (p : sprog) (steps : list instr) : bool :=
                       | None => true
                       end) (value_positions (iop s) (length (iin s)))) steps.
 
+(* The same with the exception real listings need: a constant operand of a
+   builder step (default: branch) may be outside prog.Constants when NO GATE of
+   the step's circuit reads the input wires of that operand — the offset
+   operand of index, which circuits.NewIndex bakes into the circuit instead of
+   reading it.  [wire_read c k]: some gate of c has input wire k as an operand
+   (the second operand of INV is not one). *)
+Definition wire_read (c : circuit) (k : nat) : bool :=
+  existsb (fun g => Nat.eqb (gin0 g) k
+                    || match gop g with INV => false | _ => Nat.eqb (gin1 g) k end) (gates c).
+
+Definition range_unread (c : circuit) (off n : nat) : bool :=
+  forallb (fun k => negb (wire_read c k)) (seq off n).
+
+(* first circuit input wire of operand j of a builder step *)
+Definition opnd_off (ins : list val) (j : nat) : nat := sum_bits (firstn j ins).
+
+Definition const_ok (p : sprog) (s : instr) (j : nat) (i : val) : bool :=
+  negb (vconst i) || mem (vid i) (map fst (sp_consts p))
+  || match iop s with
+     | OGen => range_unread (cc_c (nth (icirc s) (sp_circs p) cc0)) (opnd_off (iin s) j) (vbits i)
+     | _ => false
+     end.
+
+Definition consts_read_tabled (p : sprog) (steps : list instr) : bool :=
+  forallb (fun s =>
+    forallb (fun j => match nth_error (iin s) j with
+                      | Some i => const_ok p s j i
+                      | None => true
+                      end) (value_positions (iop s) (length (iin s)))) steps.
+
 (* the ret instruction returns as many bits as prog.Outputs declares *)
 Definition ret_bits (steps : list instr) : nat :=
   fold_right (fun s a => match iop s with ORet => sum_bits (iin s) + a | _ => a end) 0 steps.
@@ -702,13 +755,6 @@ Definition shape := (Z * list nat * nat * Z)%type.
 Definition step_shape (opcode : Z) (s : instr) : shape :=
   (opcode, map vbits (iin s), match iout s with Some o => vbits o | None => 0 end,
    if Z.eqb opcode compiler_ssa_Index then nth 1 (map vcint (iin s)) 0%Z else 0%Z).
-
-Fixpoint list_nat_eqb (a b : list nat) : bool :=
-  match a, b with
-  | [], [] => true
-  | x :: a', y :: b' => Nat.eqb x y && list_nat_eqb a' b'
-  | _, _ => false
-  end.
 
 Definition shape_eqb (a b : shape) : bool :=
   let '(o1, i1, r1, c1) := a in
